@@ -31,10 +31,10 @@ Definition expected_skeleton : list (string * list string) := [
     "endfor";
     "return:copy"]);
   ("SpatialTransform.condition",
-   ["if:args";
-    "call:shallow_copy(self).condition_(*args)";
+   ["if:args or kwargs";
+    "call:shallow_copy(self).condition_(*args, **kwargs)";
     "call:shallow_copy(self)";
-    "return:shallow_copy(self).condition_(*args)";
+    "return:shallow_copy(self).condition_(*args, **kwargs)";
     "endif";
     "return:(self._args, self._kwargs)"]);
   ("SpatialTransform.condition_",
@@ -43,7 +43,7 @@ Definition expected_skeleton : list (string * list string) := [
     "set:self._kwargs=kwargs";
     "return:self"]);
   ("SpatialTransform.grid_",
-   ["if:self._grid == grid";
+   ["if:self._grid == grid and self._grid.align_corners() == grid.align_corners()";
     "return:self";
     "endif";
     "if:grid.ndim != self.ndim";
@@ -375,6 +375,7 @@ Definition expected_skeleton : list (string * list string) := [
     "endif";
     "endfor";
     "endif";
+    "call:self.clear_buffers()";
     "set:self._grid=grid";
     "if:subdivide_dims";
     "call:U.subdivide_cubic_bspline(params, dims=subdivide_dims)";
